@@ -7,7 +7,7 @@ namespace CedarGo.Driver
 open Lean CedarGo
 
 /-- `pset`: run a history; policies are referred to by index into `policies` and identified in
-    `get` outputs by their `position.offset` -/
+    `get` outputs by their annotation `k` (annotations survive the JSON round trip, positions do not) -/
 def opPset : Handler := fun envs j => do
   let pols ← (← jArr (← field j "policies")).mapM decPolicy
   let ops ← jArr (← field j "ops")
@@ -25,8 +25,19 @@ def opPset : Handler := fun envs j => do
       let (s', b) := s.remove (← jHex i); s := s'; outs := outs ++ [toString b]
     | [.str "get", i] =>
       match s.get (← jHex i) with
-      | some p => outs := outs ++ [s!"p{p.position.offset}"]
+      | some p => outs := outs ++ ["p" ++ ((p.annotations.lookup "k").getD "?")]
       | none => outs := outs ++ ["none"]
+    | [.str "reset", entries] =>
+      -- `UnmarshalJSON` into the existing set: the contents are REPLACED by the document's
+      let mut t : PS := []
+      for e in ← jArr entries do
+        match ← jArr e with
+        | [i, k] =>
+          match pols[(← jNat k)]? with
+          | some p => t := (t.add (← jHex i) p).1
+          | none => throw "bad policy index"
+        | _ => throw "bad reset entry"
+      s := t; outs := outs ++ ["reset"]
     | [.str "ids"] => outs := outs ++ [",".intercalate (s.ids.map hex)]
     | [.str "len"] => outs := outs ++ [toString s.length]
     | [.str "authz", .str k] =>
